@@ -125,6 +125,13 @@ def make_jobs(tier, seed):
     groups.append(("families_watch_fail", {"mode": "random", "runs_per_config": 10 if quick else 60, "max_changes": 3,
                                            "policies": pol + ["edits_first", "failures_first"], "max_steps": 200},
                    [fin(dict(c, watch=True), inherit=True, rec=True, fail=True) for c in fams]))
+    # overlapping notices of both kinds through one aggregate (a rare order: many runs of the two graphs that allow it)
+    mixed = [c for c in fams if c["family"].startswith("mixed_agg")]
+    groups.append(("mixed_agg_watch", {"mode": "random", "runs_per_config": 300 if quick else 3000, "max_changes": 3,
+                                       "policies": ["edits_first", "uniform", "completions_first"], "max_steps": 250},
+                   [fin(dict(c, watch=True), inherit=True, rec=True) for c in mixed] +
+                   # ... and directed: only the two builds below the aggregate are edited
+                   [dict(fin(dict(c, watch=True), inherit=True, rec=True), edit_only=[1, 3]) for c in mixed]))
     fslow = [dict(c, slow=[b]) for c in fams for b in range(1, c["n"] + 1) if c["kind"][b - 1] == "b"]
     groups.append(("families_slow", {"mode": "random", "runs_per_config": 4 if quick else 40, "policies": pol}, [fin(c) for c in fslow]))
     groups.append(("families_dfs", {"mode": "dfs", "dfs_budget": 60 if quick else 1500},
